@@ -56,6 +56,10 @@ def decode_value(v):
     return v
 
 
+TRUTHY = [True, 1, 2, "yes", [0], (None,)]
+FALSY = [False, 0, "", [], None, ()]
+
+
 class Boom(Exception):
     def __init__(self, c):
         super().__init__(f"boom {c}")
@@ -218,7 +222,9 @@ def make_callback(rt, c, cb, slot_getter=None):
             raise Boom(c)
         rt.end(c, False)
         if is_guard:
-            return rt.gv.get(cb["gname"], False)
+            # truthy / falsy values of any type, not just True / False (chosen by invocation number: deterministic)
+            v = rt.gv.get(cb["gname"], False)
+            return (TRUTHY if v else FALSY)[n % 6]
         return rt.retval(id(machine.model), c, token)
 
     if not coro:
